@@ -179,6 +179,75 @@ def unit_off_policy(S):
                 what="lane i (env state, policy state, callback state and the environment's OWN replay buffer) equals the single-environment collection on lane i's inputs")
 
 
+def unit_off_policy_reset(S):
+    """reset with N environments: lane i of the warm-up (initial state + learning_starts steps into that environment's own buffer) equals the single-environment
+    initial + collect_learning_starts from the i-th per-environment keys."""
+    fn = "lerax.algorithm.off_policy:AbstractOffPolicyAlgorithm.reset"
+    S.under_contract(fn, "lerax.algorithm.off_policy:AbstractOffPolicyAlgorithm.collect_learning_starts")
+    (N,) = symbolic_dims("N", constraints=["N >= 2"])
+    ctx = Ctx()
+    algo = DQN(num_envs=N, buffer_size=2 * N, learning_starts=2, num_steps=1, batch_size=1)
+    env0 = GenericEnv(Discrete(3), observation_space=OBS)
+    pol0 = GenericQPolicy(env0.action_space, OBS, epsilon=0.0)
+    cb = SimpleCallback("cb")
+    env, pol = sym(ctx, "env", env0), sym(ctx, "q", pol0)
+    pol = eqx.tree_at(lambda p: p.epsilon, pol, 0.0)
+    k, kc = kit.key_input("key")
+    i, ic = kit.int_scalar("lane")
+    with _dx.cut():
+        out = run(ctx, lambda a, e, p, kk: a.reset(e, p, key=kk, callback=cb).step_state, algo, env, pol, k)
+        single = run(ctx, lambda a, e, p, kk, ii: a.collect_learning_starts(e, p, AbstractOffPolicyStepState.initial(2, e, p, cb, jr.split(jr.split(kk, 3)[0], N)[ii]), cb, jr.split(jr.split(kk, 3)[1], N)[ii]),
+                     algo, env, pol, k, i)
+    Nz = ctx.dim(N)
+    hyp = [Nz >= 2, ic >= 0, ic < Nz]
+
+    def conc(n, rng):
+        return None
+    rp = native_reset_lane_replay
+    named = [x for x in jax.tree_util.tree_flatten_with_path(out, is_leaf=kit.is_sarr)[0] if kit.is_sarr(x[1])]
+    named_s = [x for x in jax.tree_util.tree_flatten_with_path(single, is_leaf=kit.is_sarr)[0] if kit.is_sarr(x[1])]
+    S.fact("DQN.reset/same-structure", len(named) == len(named_s), function=fn, what="the batched warm-up state has the leaves of the single-environment one")
+    for (pth, lb), (_, ls) in zip(named, named_s):
+        S.prove(f"DQN.reset/lane-i{jax.tree_util.keystr(pth)}", ctx, kit.lane_eq(lb, ls, ic), hyps=hyp, function=fn, replay=rp,
+                what="after reset, environment i's state and ITS OWN replay buffer equal the single-environment initial + warm-up from the i-th per-environment keys (split(init_key, N)[i], split(starts_key, N)[i])")
+
+
+_RESET_REPLAY = {}
+
+
+def native_reset_lane_replay(model):
+    if "r" not in _RESET_REPLAY:
+        _RESET_REPLAY["r"] = _native_reset_lane_replay(model)
+    return _RESET_REPLAY["r"]
+
+
+def _native_reset_lane_replay(model):
+    """R1: real DQN.reset on TimeLimit(CartPole, 4) with 3 environments vs three single-environment initial + collect_learning_starts runs from the per-environment keys; the
+    environments must also not become copies of each other after a simultaneous truncation."""
+    import lerax.wrapper as W_
+    from lerax.env.classic_control import CartPole
+    from lerax.policy import MLPQPolicy
+    env = W_.TimeLimit(CartPole(), 4)
+    pol = MLPQPolicy(env, width_size=4, depth=1, key=jax.random.key(0))
+    cb = SimpleCallback("cb")
+    n = 3
+    algo = DQN(num_envs=n, buffer_size=12 * n, learning_starts=10, num_steps=1, batch_size=2)
+    key = jax.random.key(5)
+    st = algo.reset(env, pol, key=key, callback=cb).step_state
+    init_key, starts_key, _ = jr.split(key, 3)
+    obs = np.asarray(st.buffer.observations)
+    for e in range(n):
+        s0 = AbstractOffPolicyStepState.initial(12, env, pol, cb, jr.split(init_key, n)[e])
+        s1 = algo.collect_learning_starts(env, pol, s0, cb, jr.split(starts_key, n)[e])
+        if not (np.allclose(np.asarray(s1.buffer.observations), obs[e], atol=1e-6) and np.allclose(np.asarray(s1.buffer.rewards), np.asarray(st.buffer.rewards)[e]) and np.allclose(np.asarray(s1.env_state.env_state.y), np.asarray(st.env_state.env_state.y)[e], atol=1e-6)):
+            return dict(reproduced=True, route="R1 (real DQN.reset, 3 environments, vs single-environment warm-ups from the per-environment keys)", inputs=dict(env="TimeLimit(CartPole(), 4)", num_envs=n, learning_starts=10, key_seed=5, lane=e),
+                        observed=dict(batched_first_obs=obs[e][:6].tolist(), single_first_obs=np.asarray(s1.buffer.observations)[:6].tolist()))
+    late = obs[:, 6:10]
+    if any(np.allclose(late[a], late[b]) for a in range(n) for b in range(a + 1, n)):
+        return dict(reproduced=True, route="R1 (real DQN.reset, 3 environments)", inputs=dict(env="TimeLimit(CartPole(), 4)", num_envs=n, learning_starts=10, key_seed=5), observed=dict(problem="two environments store identical transitions after the simultaneous truncation", observations_steps_6_to_9=late.tolist()))
+    return dict(reproduced=False, note="each environment's warm-up equals the single-environment run from its own keys; environments stay distinct")
+
+
 def diffeqsolve_euler(term, solver=None, t0=None, t1=None, dt0=None, y0=None, args=None, saveat=None, stepsize_controller=None, **kw):
     import types
     y1 = y0 + (t1 - t0) * term.vf(t0, y0, args)
@@ -275,4 +344,4 @@ def unit_envs(S):
                    what="the extracted program has no effects and re-extraction gives the identical program: the result depends only on the explicit arguments (eager, jit and vmap run the same jaxpr)")
 
 
-UNITS = [("collection-on-policy", unit_on_policy), ("collection-off-policy", unit_off_policy), ("env-functions", unit_envs)]
+UNITS = [("collection-on-policy", unit_on_policy), ("collection-off-policy", unit_off_policy), ("reset-off-policy", unit_off_policy_reset), ("env-functions", unit_envs)]
